@@ -1,8 +1,12 @@
 import AvroModel.Theorems.C08
 import AvroModel.Theorems.C08pcf
 import AvroModel.Theorems.C18
+import AvroModel.Theorems.C08spec
 /-
 C08 — all parts together: the checksum (`C08.lean`, every byte string), the canonical-form
 writer (`C08pcf.lean`), and the composition "fingerprint = little-endian CRC-64-AVRO of the
-canonical form" (`C18_fingerprint_is_crc`, the fingerprint being the one stored at freeze time).
+canonical form" (`C18_fingerprint_is_crc`, the fingerprint being the one stored at freeze time),
+and the canonical form written by the crate = the specification's transformation of the JSON
+document (`C08spec.lean`: `Spec/Pcf.lean` transcribes the specification's rules on the document;
+`C08_pcf_is_spec` for every accepted document without forward reference).
 -/
